@@ -513,3 +513,39 @@ lt_inst! {
     c08_recv_indication = c08_recv::<2, 0, { F_MI }, 1>();
     c08_recv_request = c08_recv::<3, 0, { F_SHA }, 2>();
 }
+
+// ---- cost experiments (not registered) ------------------------------------------------------
+fn exp_adds(n: usize, removes: bool) {
+    let mut app = crate::message::verif_message::attributes_with_capacity(8);
+    if removes {
+        remove_auth_and_integrity_attrs(&mut app);
+    }
+    let mut i = 0;
+    while i < n {
+        app.add(SA::Other(Other { code: 0x8000 + i as u16, val: kani::any() }));
+        i += 1;
+    }
+    let out: Vec<StunAttribute> = app.into();
+    assert!(out.len() == n);
+    std::mem::forget(out);
+}
+fn exp_prepare_concrete() {
+    let mut c = LongTermCredentialClient::new(UserName(1), "p", false);
+    let p = P { realm: 2, nonce: Nonce { tok: 5, cookie: false, flags_ok: false, anonymity: false, pwd_algs: false }, algs: None, alg: None, key: 25, user_hash: None, sha: false };
+    install(&mut c, &p);
+    c.state = LongTermCredentialState::SubsequentRequest;
+    let mut app = crate::message::verif_message::attributes_with_capacity(8);
+    app.add(SA::Other(Other { code: 0x8022, val: kani::any() }));
+    let r = c.prepare_request(&mut app);
+    assert!(r.is_ok());
+    let out: Vec<StunAttribute> = app.into();
+    assert!(out.len() == 5);
+    std::mem::forget(out);
+    std::mem::forget(c);
+}
+lt_inst! {
+    exp_adds_3 = exp_adds(3, false);
+    exp_adds_5 = exp_adds(5, false);
+    exp_adds_5_removes = exp_adds(5, true);
+    exp_prepare_concrete_state = exp_prepare_concrete();
+}
